@@ -1103,6 +1103,56 @@ fn format_once(text: &str, name: &str, width: usize) -> Result<(usize, String, V
   .map_err(panic_msg)
 }
 
+type Tok = (String, String, usize, usize);
+
+/// the tokens around offset `off` and the syntactic context there (see checks/c09.py)
+fn site_ctx(toks: &[Tok], off: usize, expr_list_opens: &[usize], annot_starts: &[usize]) -> serde_json::Map<String, Value> {
+  let prev = toks.iter().rev().find(|t| t.3 <= off).map(|t| json!([t.0, t.1])).unwrap_or(Value::Null);
+  let next = toks.iter().find(|t| t.2 >= off).map(|t| json!([t.0, t.1])).unwrap_or(Value::Null);
+  let mut r = serde_json::Map::new();
+  r.insert("prev".into(), prev);
+  r.insert("next".into(), next);
+  // innermost bracket that is open at the site, and whether it opens an expression list (call arguments, tuple)
+  let mut stack: Vec<&Tok> = Vec::new();
+  for t in toks.iter().filter(|t| t.3 <= off) {
+    if t.0 == "operator" {
+      match t.1.as_str() {
+        "(" | "{" | "[" => stack.push(t),
+        ")" | "}" | "]" => {
+          stack.pop();
+        }
+        _ => {}
+      }
+    }
+  }
+  let encl = stack.last();
+  r.insert("encl_open".into(), encl.map(|t| json!(t.1)).unwrap_or(Value::Null));
+  // the token before that bracket (an expression end means the bracket opens call arguments)
+  let encl_prev = encl.and_then(|e| toks.iter().rev().find(|t| t.3 <= e.2)).map(|t| json!([t.0, t.1])).unwrap_or(Value::Null);
+  r.insert("encl_prev".into(), encl_prev);
+  r.insert("encl_expr_list".into(), json!(encl.map(|t| expr_list_opens.contains(&t.2)).unwrap_or(false)));
+  let next_start = toks.iter().find(|t| t.2 >= off).map(|t| t.2);
+  r.insert("next_is_type".into(), json!(next_start.map(|o| annot_starts.contains(&o)).unwrap_or(false)));
+  r
+}
+
+/// every comment of `text` with the site it sits at
+fn run_comment_sites(job: &Value) -> Value {
+  let text = job["text"].as_str().unwrap();
+  let name = job["name"].as_str().unwrap_or("Test");
+  let all = tokens_with_offsets(text);
+  let toks: Vec<Tok> = all.iter().filter(|t| !t.0.ends_with("comment")).cloned().collect();
+  let (expr_list_opens, annot_starts) = context_offsets(text, name);
+  let mut out = Vec::new();
+  for t in all.iter().filter(|t| t.0.ends_with("comment")) {
+    let mut r = site_ctx(&toks, t.2, &expr_list_opens, &annot_starts);
+    r.insert("kind".into(), json!(t.0));
+    r.insert("text".into(), json!(t.1));
+    out.push(Value::Object(r));
+  }
+  json!({"id": job["id"], "comments": out})
+}
+
 fn run_inject(job: &Value) -> Value {
   let text = job["text"].as_str().unwrap();
   let name = job["name"].as_str().unwrap_or("Test");
@@ -1122,30 +1172,8 @@ fn run_inject(job: &Value) -> Value {
       _ => format!(" /** {marker} */ "),
     };
     let injected = format!("{}{}{}", &text[..off], piece, &text[off..]);
-    let prev = toks.iter().rev().find(|t| t.3 <= off).map(|t| json!([t.0, t.1])).unwrap_or(Value::Null);
-    let next = toks.iter().find(|t| t.2 >= off).map(|t| json!([t.0, t.1])).unwrap_or(Value::Null);
-    let mut r = serde_json::Map::new();
+    let mut r = site_ctx(&toks, off, &expr_list_opens, &annot_starts);
     r.insert("site".into(), site.clone());
-    r.insert("prev".into(), prev);
-    r.insert("next".into(), next);
-    // innermost bracket that is open at the site, and whether it opens an expression list (call arguments, tuple)
-    let mut stack: Vec<&(String, String, usize, usize)> = Vec::new();
-    for t in toks.iter().filter(|t| t.3 <= off) {
-      if t.0 == "operator" {
-        match t.1.as_str() {
-          "(" | "{" | "[" => stack.push(t),
-          ")" | "}" | "]" => {
-            stack.pop();
-          }
-          _ => {}
-        }
-      }
-    }
-    let encl = stack.last();
-    r.insert("encl_open".into(), encl.map(|t| json!(t.1)).unwrap_or(Value::Null));
-    r.insert("encl_expr_list".into(), json!(encl.map(|t| expr_list_opens.contains(&t.2)).unwrap_or(false)));
-    let next_start = toks.iter().find(|t| t.2 >= off).map(|t| t.2);
-    r.insert("next_is_type".into(), json!(next_start.map(|o| annot_starts.contains(&o)).unwrap_or(false)));
     match format_once(&injected, name, width) {
       Err(msg) => {
         r.insert("panic".into(), json!(msg));
@@ -1238,6 +1266,7 @@ pub fn main(args: &[String]) {
       "module" => run_module(&job),
       "tokens" => run_tokens(&job),
       "inject" => run_inject(&job),
+      "comment-sites" => run_comment_sites(&job),
       other => {
         eprintln!("unknown fmt-run mode {other}");
         std::process::exit(2);
